@@ -86,6 +86,18 @@ def instantiate_axioms(exprs, packs):
             ax.append(z3.And(a > -PI / 2, a < PI / 2))
         for a in by.get("atan2", []):
             ax.append(z3.And(a > -PI, a <= PI))
+    if "sin-lipschitz" in packs:
+        sins = list({a.get_id(): a for a in by.get("sin", [])}.values())
+        for i_ in range(len(sins)):
+            for j_ in range(i_ + 1, len(sins)):
+                p_, q_ = sins[i_], sins[j_]
+                dd = p_.arg(0) - q_.arg(0)
+                ax.append(z3.And(p_ - q_ <= z3.If(dd >= 0, dd, -dd), q_ - p_ <= z3.If(dd >= 0, dd, -dd)))
+    if "atan-inverse" in packs:
+        tanf = UF["tan"]
+        for a in by.get("atan", []):
+            ax.append(tanf(a) == a.arg(0))
+            ax.append(z3.And(z3.Implies(a.arg(0) >= 0, a >= 0), z3.Implies(a.arg(0) <= 0, a <= 0)))
     if "sqrt" in packs:
         for a in by.get("sqrt", []):
             x = a.arg(0)
@@ -127,32 +139,83 @@ def model_value(model, kind, const, bits=None):
     raise ValueError(kind)
 
 
+def _mk_solver(kind, seed):
+    if kind == "nlsat":
+        s = z3.Then("simplify", "solve-eqs", "qfnra-nlsat").solver()
+    else:
+        s = z3.Solver()
+        if seed:
+            s.set("random_seed", seed)
+            s.set("smt.random_seed", seed) if False else None
+    return s
+
+
 def solve_vc(hyps, goal, axioms, timeout_ms, use_cvc5=True):
-    """-> (verdict, model or None, backend, seconds, detail)"""
+    """-> (verdict, model or None, backend, seconds, detail)
+    A small portfolio (default z3, other random seeds, the nlsat tactic, then cvc5) with short budgets first, so that a
+    verdict does not depend on one unlucky search; `unknown` only if every member gives up within the full budget."""
     t0 = time.time()
-    s = z3.Solver()
-    s.set("timeout", int(timeout_ms))
-    for h in hyps:
-        s.add(h)
-    for a in axioms:
-        s.add(a)
-    s.add(z3.Not(goal))
-    r = s.check()
+    fs = list(hyps) + list(axioms) + [z3.Not(goal)]
+    has_int = any(_has_int(f) for f in fs)
+    plan = [("default", 0, min(timeout_ms, 4000)), ("default", 7, min(timeout_ms, 4000))]
+    if not has_int:
+        plan.append(("nlsat", 0, min(timeout_ms, 8000)))
+    plan += [("default", 0, timeout_ms), ("default", 13, timeout_ms // 2)]
+    if not has_int:
+        plan.append(("nlsat", 0, timeout_ms // 2))
+    reason = ""
+    last = None
+    spent = 0
+    for kind, seed, budget in plan:
+        if spent >= timeout_ms * 2:
+            break
+        s = _mk_solver(kind, seed)
+        s.set("timeout", int(budget))
+        for f in fs:
+            s.add(f)
+        t1 = time.time()
+        try:
+            r = s.check()
+        except z3.Z3Exception as e:
+            r = z3.unknown
+            reason = str(e)
+        spent += (time.time() - t1) * 1000
+        last = s
+        if r == z3.unsat:
+            return "discharged", None, "z3" if kind == "default" else "z3-nlsat", time.time() - t0, ""
+        if r == z3.sat:
+            return "refuted", s.model(), "z3", time.time() - t0, ""
+        try:
+            reason = s.reason_unknown()
+        except Exception:
+            pass
     dt = time.time() - t0
-    if r == z3.unsat:
-        return "discharged", None, "z3", dt, ""
-    if r == z3.sat:
-        return "refuted", s.model(), "z3", dt, ""
-    reason = s.reason_unknown()
-    if use_cvc5:
+    if use_cvc5 and last is not None:
+        s = z3.Solver()
+        for f in fs:
+            s.add(f)
         v, detail = cvc5_check(s.to_smt2(), timeout_ms)
         dt = time.time() - t0
         if v == "unsat":
             return "discharged", None, "cvc5", dt, ""
         if v == "sat":
-            # cvc5 model is not imported; retry z3 with other tactics for a model
             return "refuted-nomodel", None, "cvc5", dt, detail
     return "unknown", None, "z3", dt, reason
+
+
+def _has_int(f):
+    seen = set()
+    todo = [f]
+    while todo:
+        x = todo.pop()
+        if x.get_id() in seen:
+            continue
+        seen.add(x.get_id())
+        if z3.is_int(x) or (z3.is_app(x) and x.decl().kind() in (z3.Z3_OP_TO_INT, z3.Z3_OP_IDIV, z3.Z3_OP_MOD)):
+            return True
+        if z3.is_app(x):
+            todo.extend(x.children())
+    return False
 
 
 def cvc5_check(smt2, timeout_ms):
